@@ -8,6 +8,7 @@ import Driver.Cli
 import Driver.Carve
 import Driver.SpecPage
 import Driver.WalIndex
+import Driver.Iface
 
 open SqliteDissect
 
@@ -31,6 +32,8 @@ def dispatch (toks : List String) : IO String := do
         (try Driver.WalIndex.handle toks catch e => pure (some s!"io-error {e}"))
       else if op.startsWith "cell." || op.startsWith "ptrmap." || op.startsWith "hdr." then
         pure (Driver.Arith.handle toks)
+      else if op.startsWith "iface." then
+        (try Driver.Iface.handle toks catch e => pure (some s!"io-error {e}"))
       else if op.startsWith "carve." then
         (try Driver.Carve.handle toks catch e => pure (some s!"io-error {e}"))
       else if op.startsWith "db." || op.startsWith "vh." then
